@@ -217,6 +217,40 @@ var textAblations = []ablation{
 		sb.WriteString(src[last:])
 		return sb.String()
 	}},
+	{"blank-inside-path", joinPathWords},
+}
+
+// joinPathWords: the parser glues a word that follows a path after white space onto the path
+// (`get /a b` is read as `/ab`, `get /3 map` as `/3map`). The neutralisation puts a '-' (a legal
+// separator of path words) where such a blank stands, so that the two words stay two tokens.
+func joinPathWords(src string) string {
+	ls := lex(src)
+	var sb strings.Builder
+	last := 0
+	inPath := false // the lexemes up to ls[i] form a path that ends in a word
+	for i, l := range ls {
+		t := src[l.start:l.end]
+		tight := i > 0 && ls[i-1].end == l.start
+		switch {
+		case l.kind == 'p' && t == "/":
+			inPath = false
+			if i+1 < len(ls) && ls[i+1].start == l.end && (ls[i+1].kind == 'w' || src[ls[i+1].start] == ':') {
+				inPath = true // becomes a path once a word follows tightly
+			}
+		case inPath && tight && (l.kind == 'w' || t == ":" || t == "-"):
+			// still inside the path
+		case inPath && !tight && l.kind == 'w' && ls[i-1].kind == 'w' && t != "returns" && !strings.HasPrefix(t, "@") &&
+			strings.Trim(src[ls[i-1].end:l.start], " \t") == "" && // blanks on one line, nothing else
+			!(i+1 < len(ls) && src[ls[i+1].start] == ':'): // not the key of the next key-value pair
+			sb.WriteString(src[last:ls[i-1].end])
+			sb.WriteString("-")
+			last = l.start
+		default:
+			inPath = false
+		}
+	}
+	sb.WriteString(src[last:])
+	return sb.String()
 }
 
 // neutralizeEmpty gives every zero string a content and removes empty
